@@ -32,14 +32,15 @@ Theorem C04_map_line_keeps_structure : forall s site g l,
 Proof. exact (map_line_keeps LT). Qed.
 Print Assumptions C04_map_line_keeps_structure.
 
-(* the lemma phase 6 named as missing.  One character behind column 0 replaced by a digit; on a batch
-   header behind column 53 and such that the byte-sliced batch kind is kept *)
+(* the lemma phase 6 named as missing, as stated there.  One character behind column 0 replaced by a
+   digit; on a batch header behind column 53 (the batch kind is decided on characters / bytes 4..20
+   and 50..53 by both readers; BatchHeader.Parse cuts the SEC code at characters 50..53: bh_sec_cut) *)
 Theorem C04_tamper_keeps_structure : forall s site col d l,
   site_line s site = Some l -> 1 <= col -> is_digit d = true ->
-  (forall bi, site = SBatchHdr bi -> 53 <= col /\ kind_of_hdr (set_digit l col d) = kind_of_hdr l) ->
+  (forall bi, site = SBatchHdr bi -> 53 <= col) ->
   file_typed s = true -> utf8_records s -> bridge_okb LT s = true ->
   file_typed (tamper s site col d) = true /\ utf8_records (tamper s site col d) /\ bridge_okb LT (tamper s site col d) = true.
-Proof. exact (tamper_keeps LT). Qed.
+Proof. exact c04_tamper_keeps_general. Qed.
 Print Assumptions C04_tamper_keeps_structure.
 
 (* ... for a digit of any of the 46 protected columns (a protected column of a batch header lies at
